@@ -1,5 +1,7 @@
 import Vflow.Proofs.RoundIpfix
 import Vflow.Proofs.HeaderLayouts
+import Vflow.Gen.Sites
+import Vflow.Spec.Sites
 /-!
 # C03 — IPFIX: data records are decoded exactly as their templates describe
 
@@ -193,5 +195,10 @@ theorem gen_optTplHeader_layout (r : Rd) (tid n sc : Nat) (r3 : Rd)
          match Ipfix.readSpecs ((n + 65536 - sc) % 65536) r4 [] with
          | (.error e, r5) => (.error e, r5)
          | (.ok fs, r5) => (.ok ⟨tid, n, sc, scs, fs⟩, r5)) := HeaderLayouts.ipfix_optTplHeader_read r tid n sc r3 h
+
+/-- **Tie (control-flow skeleton)**: every branch / loop condition, switch case and `break` / `continue` of the
+sources this model mirrors, re-extracted on every run, is exactly the reviewed inventory in `Spec/Sites.lean`
+(which names the model clause of each).  A changed bound, a new or dropped branch breaks this obligation. -/
+theorem guards_reviewed : Gen.Sites.guardsIpfix = Spec.Sites.guardsIpfix := by decide +kernel
 
 end Vflow.C03
